@@ -2,8 +2,8 @@
 import NitroVerif.Model.MT
 namespace NitroVerif.Generated
 open NitroVerif.MT
-def stdoutSink : List Instr := [.lock, .write, .flush]
-def stderrSink : List Instr := [.lock, .write]
+def stdoutSinkBySev : List (List Instr) := [[.lock, .write, .flush], [.lock, .write, .flush], [.lock, .write, .flush], [.lock, .write, .flush], [.lock, .write, .flush], [.lock, .write, .flush]]
+def stderrSinkBySev : List (List Instr) := [[.lock, .write], [.lock, .write], [.lock, .write], [.lock, .write], [.lock, .write], [.lock, .write]]
 def stdoutMutexStatic : Bool := true
 def stderrMutexStatic : Bool := true
 def mtExtracted : Bool := true
